@@ -558,8 +558,8 @@ static int mode_nbr(const std::string &in, const std::string &outp, long shard, 
 		long x = l.vals[fi][k]; std::string fname = l.names[fi];
 		if (!jb.way.level.empty() && fname == "gset") return;
 		// inputs of a crash class that was already observed twice for this class and way are not constructed again
-		if (fi == 0 && x == 0 && cc.crash_p0 >= 2) { cc.nskip++; return; }
-		if (fi == 0 && l.fam == "qr" && bitlen(x) < (long)l.sz.E && cc.crash_short >= 2) { cc.nskip++; return; }
+		if (fi == 0 && l.fam == "qr" && bitlen(x) < (long)l.sz.E) { if (cc.crash_short >= 2) { cc.nskip++; return; } }
+		else if (fi == 0 && x == 0 && cc.crash_p0 >= 2) { cc.nskip++; return; }
 		FMap f; for (size_t u = 0; u < l.names.size(); u++) f[l.names[u]] = Mpz(l.base[u]);
 		if (!jb.way.level.empty()) {
 			// one nesting level is corrupted: every level keeps the base, the named one gets x
@@ -583,8 +583,8 @@ static int mode_nbr(const std::string &in, const std::string &outp, long shard, 
 		const NbrJob &jb = jobs[j]; const NbrLine &l = ls[jb.line]; CwCount &cc = cwc[jb.cw];
 		long x = l.vals[fi][k];
 		std::string klass = "other";
-		if (fi == 0 && x == 0) { cc.crash_p0++; klass = "p0"; }
-		else if (fi == 0 && l.fam == "qr" && bitlen(x) < (long)l.sz.E) { cc.crash_short++; klass = "qr-short-p"; }
+		if (fi == 0 && l.fam == "qr" && bitlen(x) < (long)l.sz.E) { cc.crash_short++; klass = "qr-short-p"; }
+		else if (fi == 0 && x == 0) { cc.crash_p0++; klass = "p0"; }
 		else cc.crash_other++;
 		json b; b["kind"] = "crash"; b["class"] = klass; b["sig"] = signame(sig); b["cls"] = jb.cls; b["via"] = jb.way.via; b["level"] = jb.way.level;
 		b["v"] = l.v; b["base"] = l.base; b["field"] = l.names[fi]; b["x"] = x; s = b.dump() + "\n";
@@ -681,8 +681,15 @@ static void elems(json &ev, Ad *a, mpz_srcptr p, const std::function<void(mpz_pt
 	}
 	ev["el"] = el;
 }
+// hook H1 (src/mpz_shash.cc, guarded by LIBTMCG_VERIF): every string the library hashes with tmcg_mpz_shash
+extern void (*tmcg_verif_shash_hook)(const std::string &input, mpz_srcptr output);
+static std::vector<std::pair<std::string, std::string> > oracle_seen;
+static void oracle_hook(const std::string &input, mpz_srcptr output) {
+	if (input.compare(0, 8, "LibTMCG|") == 0) oracle_seen.push_back(std::make_pair(input, mpz2s(output)));
+}
 static int mode_gen(unsigned long seed, long count, const std::string &outp) {
 	FILE *out = fopen(outp.c_str(), "w");
+	tmcg_verif_shash_hook = oracle_hook;
 	auto body = [&](long i, std::string &s) {
 		seam::seed(seed * 1000003UL + (unsigned long)i); seam::seed_harness(seed * 7919UL + (unsigned long)i);
 		// field 10..14 bits (p < 2^15 whatever k is rounded to), cofactor at least 6 bits: with fewer candidates for k the
@@ -755,6 +762,15 @@ static int mode_gen(unsigned long seed, long count, const std::string &outp) {
 			  json e2; e2["e"] = "Gen"; e2["cls"] = "ptc"; e2["via"] = "republished"; e2["v"] = vjson("com", s1); e2["t"] = tuple_of(&b, "com", 1); e2["cg"] = b.cg(); emit(e2); b.done(); }
 			a.done();
 		}
+		// oracle answers observed, reduced modulo the prime named in the queried string ("LibTMCG|<p>|<q>|...")
+		for (size_t k = 0; k < oracle_seen.size(); k++) {
+			const std::string &u = oracle_seen[k].first; size_t b = u.find('|', 8);
+			Mpz m(u.substr(8, b - 8), TMCG_MPZ_IO_BASE), r(oracle_seen[k].second, 10);
+			if (mpz_sgn(m.v) <= 0) continue;
+			mpz_mod(r, r, m);
+			json o; o["e"] = "Oracle"; o["run"] = i; o["u"] = u; o["m"] = zj(m); o["r"] = zj(r); acc << o.dump() << "\n";
+		}
+		oracle_seen.clear();
 		s = acc.str();
 	};
 	auto crashed = [&](long i, int sig, long, std::string &s) { json o; o["e"] = "Crash"; o["run"] = i; o["sig"] = signame(sig); s = o.dump() + "\n"; };
